@@ -9,10 +9,34 @@ use tako::Set;
 use crate::common::arrayparser::parse_array;
 
 #[derive(Serialize, Deserialize, Clone, Copy)]
+#[serde(try_from = "IntRangeData")]
 pub struct IntRange {
     pub start: u32,
     pub count: u32,
     pub step: u32,
+}
+
+/// Unchecked content of a deserialized [`IntRange`]
+#[derive(Deserialize)]
+#[serde(rename = "IntRange")]
+struct IntRangeData {
+    start: u32,
+    count: u32,
+    step: u32,
+}
+
+impl TryFrom<IntRangeData> for IntRange {
+    type Error = &'static str;
+
+    fn try_from(data: IntRangeData) -> Result<Self, Self::Error> {
+        let IntRangeData { start, count, step } = data;
+        // The parser never creates a range with zero step, but a received message may contain it.
+        // Such a range is meaningless and its iteration (`step_by(0)`) would panic.
+        if step == 0 {
+            return Err("Integer range with zero step");
+        }
+        Ok(IntRange { start, count, step })
+    }
 }
 
 impl IntRange {
